@@ -122,6 +122,48 @@ def run_case(seed, c20=False):
     return out
 
 
+def many_boxes_case(seed):
+    """one level of 100-120 small boxes, nearly all of them in ONE binary file in a shuffled on-disk order (the
+    per-file work of the binary checks is then far longer than any batch size): offsets and FAB headers of single
+    boxes are damaged"""
+    import numpy as np
+    rng = random.Random(seed)
+    model = core.W['model']
+    out = dict(evals=0, keys=[], dist={}, samples=[], violations=[], disagreements=[], extra={})
+    a, b = rng.choice([(10, 10), (11, 10), (12, 10), (9, 13), (7, 17)])
+    pf = gen.PF()
+    pf.ndims, pf.bf = 2, 2
+    pf.fields = gen.gen_fields(rng, 1, 2)
+    pf.time, pf.step = 0.5, 7
+    pf.geo_low, pf.dx0, pf.n0 = [0.0, 0.0], [0.5, 0.5], [2 * a, 2 * b]
+    lev = gen.Level()
+    lev.boxes = [((2 * i, 2 * j), (2 * i + 1, 2 * j + 1)) for i in range(a) for j in range(b)]
+    rng.shuffle(lev.boxes)
+    n = len(lev.boxes)
+    lev.data = [gen.gen_payload(rng, (2, 2, len(pf.fields)), 'ints', 16 * k) for k in range(n)]
+    few = rng.sample(range(n), rng.randint(2, 5))
+    main = [k for k in range(n) if k not in few]
+    rng.shuffle(main)
+    lev.files = [('Cell_D_00000', main), ('Cell_D_00001', few)]
+    pf.levels = [lev]
+    pf.meta = dict(ndims=2, nlevels=1, bf=2, nfields=len(pf.fields), payload='ints', geo='exact/zero', layouts=['random'],
+                   nboxes=[n], nfiles=[2], n0=pf.n0, case='many boxes in one file')
+    base = diskimg.image_of(pf)
+    out['dist'][f'case=many boxes in one file ({n} boxes)'] = 1
+    ops = [diskimg.op_nudge_offset, diskimg.op_nudge_offset, diskimg.op_nudge_offset, diskimg.op_bad_offset, diskimg.op_shift_fab_indices, diskimg.op_alter_shape, diskimg.op_dup_offset,
+           diskimg.op_swap_offsets]
+    for i in range(14):
+        img, descs = diskimg.corrupt(base, rng, 0, ops, 1)
+        if not descs:
+            continue
+        out['dist']['op=' + descs[0].split()[0]] = out['dist'].get('op=' + descs[0].split()[0], 0) + 1
+        check_image(out, model, img, pf, 0, len(pf.fields), descs, seed, 'c04many')
+        out['keys'].append(core.khash(seed, 'many', i))
+    for v in out['violations'] + out['disagreements']:
+        v['case_fn'] = 'many_boxes_case'
+    return out
+
+
 def c20_read_back(out, img, pf, limit, descs, path, seed, count):
     """every box of every validated level of an accepted image must read back"""
     from amr_kitchen import PlotfileCooker
@@ -176,6 +218,8 @@ def run(tier, seed):
     ncases = 24 if tier == 'quick' else 400
     cases = [seed * 100000 + 4000 + i for i in range(ncases)]
     for r in core.run_cases(run_case, core.with_corpus(PID, cases)):
+        rep.merge(r)
+    for r in core.run_cases(many_boxes_case, [seed * 100000 + 4900 + i for i in range(3 if tier == 'quick' else 30)]):
         rep.merge(r)
     rep.obligation('correspondence: Taste.taste_good = bool(Taster) on every corrupted image (default options)',
                    not any(v[0].get('kind') == 'model-vs-impl' for v in rep.violations))
